@@ -13,3 +13,7 @@
 (hist (tdefs) (ops (newscope none) (newscope 0) (newscope 1) (settype 0 "X" (ty integer none 1)) (resolve 2 "x") (settype 0 "x" (ty real 2 2)) (settype 1 "x" (ty logical none 3)) (resolve 2 "X")))
 ; clone / rescope of the documentation example
 (hist (tdefs) (ops (newscope none) (create ("foo") 0 (ty integer none 0) none none) (create ("foo") none (ty real none 0) none none) (rescope 1 0) (clone 1 keep 0 keep keep) (clone 0 keep none (ty logical none 0) keep) (clone 5 keep 0 none keep)))
+; stale DEFERRED entry under the qualified member name (as left by a reference made before the parent was declared), parent declared later with a typedef, member re-created by name: class must follow the type definition (seed C13-member-deferred-entry-not-refreshed)
+(hist (tdefs ("my_type" ("n" (ty integer none 0)) ("vals" (ty real 1 0)))) (ops (newscope none) (settype 0 "item" (ty deferred none 0)) (settype 0 "item%vals" (ty deferred none 0)) (settype 0 "item%n" (ty deferred none 0)) (settype 0 "item" (ty (derived "my_type" 0) none 0)) (create ("item") 0 none none none) (create ("item" "vals") 0 none 0 none) (create ("ITEM" "N") 0 none 0 none)))
+; the same with the stale entry in the enclosing scope
+(hist (tdefs ("my_type" ("n" (ty integer none 0)) ("vals" (ty real 1 0)))) (ops (newscope none) (newscope 0) (settype 0 "item%vals" (ty deferred none 0)) (settype 1 "item" (ty (derived "my_type" 0) none 0)) (create ("item") 1 none none none) (create ("item" "vals") 1 none 0 none)))
